@@ -97,6 +97,18 @@ PROBES = [
 _validated = [False]
 
 
+def _open_ids():
+    import json
+    ids = set()
+    for p in (_os.path.join(_HERE, 'kf.json'), _os.path.join(_os.path.dirname(_os.path.dirname(_HERE)), 'known_findings.json')):
+        if _os.path.exists(p):
+            d = json.load(open(p))
+            for k in (d.get('open', []) if isinstance(d, dict) else d):
+                if isinstance(k, dict) and 'id' in k:
+                    ids.add(k['id'])
+    return ids
+
+
 def _run(cmd, timeout=300):
     try:
         r = _sp.run(cmd, capture_output=True, text=True, timeout=timeout)
@@ -135,16 +147,17 @@ def validate():
                 res.append((cc, rc != 0))
             return fid, expr, res
         jobs = [(cc, opt, dbl) for cc in ('g++', 'clang++-16') for opt in ('-O0', '-O2') for dbl in (0, 1)]
+        opn = _open_ids()
         with _cf.ThreadPoolExecutor(int(_os.environ.get('VF_JOBS', '4'))) as ex:
             sm = list(ex.map(smoke, jobs))
-            pr = list(ex.map(probe, PROBES))
+            pr = list(ex.map(probe, [p_ for p_ in PROBES if p_[0] in opn]))   # only findings that are listed open
         bad = [(j, msg) for j, ok, msg in sm if not ok]
         if bad:
             raise RuntimeError('ce_fp: constexpr smoke table disagrees with the macro-forced constant-evaluation branch: %s' % bad[:3])
         rows = sum(int(msg.split()[2]) for j, ok, msg in sm if msg.startswith('ce_fp smoke:'))
         rej = sum(1 for fid, expr, res in pr for cc, r in res if r)
         tot = sum(len(res) for fid, expr, res in pr)
-        print('[ce_fp] constexpr smoke tables (g++/clang++-16, -O0/-O2, float/double): %d rows, 0 mismatches; %d/%d recorded compile-time failures reproduce' % (rows, rej, tot), flush=True)
+        print('[ce_fp] constexpr smoke tables (g++/clang++-16, -O0/-O2, float/double): %d rows, 0 mismatches; %d/%d compile-time failures of open findings reproduce' % (rows, rej, tot), flush=True)
         for fid, expr, res in pr:
             for cc, r in res:
                 if not r:
